@@ -6547,11 +6547,18 @@ static hawk_val_t* eval_incpre (hawk_rtx_t* rtx, hawk_nde_t* nde)
 		}
 	}
 
+	/* hold the new value while it is being assigned. the assignment to a
+	 * positional variable converts it to a string, and the conversion of a
+	 * floating-point number takes and drops a reference to it. without
+	 * this, the value returned below would have been freed already. */
+	hawk_rtx_refupval (rtx, res);
 	if (HAWK_UNLIKELY(do_assignment(rtx, exp->left, res) == HAWK_NULL))
 	{
+		hawk_rtx_refdownval (rtx, res);
 		hawk_rtx_refdownval (rtx, left);
 		return HAWK_NULL;
 	}
+	hawk_rtx_refdownval_nofree (rtx, res);
 
 	hawk_rtx_refdownval (rtx, left);
 	return res;
